@@ -82,7 +82,7 @@ func (h *Handler) spoofLoop(addr packet.Addr) {
 	nTimes := 0
 	for {
 		h.arpMutex.Lock()
-		targetAddr, hunting := h.findHuntByIP(addr.IP)
+		targetAddr, hunting := h.huntList[string(addr.MAC)] // same key as StartHunt/StopHunt: two MACs can share an IP
 		closed := h.closed
 		h.arpMutex.Unlock()
 
